@@ -673,6 +673,9 @@ func (t *T) assignedIn(n ast.Node) (map[types.Object]bool, []string) {
 func (t *T) loopDef(e *env, ind string, k K, structArg, structType, zeroPat, succPat, structNext string,
 	extra []Param, extraArgs []string, extraNext func(e *env) []string, bind func(e *env),
 	body func(e *env, ind string, again K) string) string {
+	if t.loopDepth > 0 {
+		t.stopf(nil, "a loop inside the body of a translated loop is outside the supported subset")
+	}
 	t.nloops++
 	k = t.lexical(k)
 	name := fmt.Sprintf("%s_loop%d", t.tg.Name, t.nloops)
@@ -762,7 +765,9 @@ func (t *T) loopDef(e *env, ind string, k K, structArg, structType, zeroPat, suc
 	t.brk = append(t.brk, k)
 	t.cont = append(t.cont, again)
 	after := k(inner.clone(), "      ")
+	t.loopDepth++
 	bodyText := body(inner.clone(), "      ", again)
+	t.loopDepth--
 	t.brk = t.brk[:len(t.brk)-1]
 	t.cont = t.cont[:len(t.cont)-1]
 	text := "  match " + structArg + " with\n  | " + zeroPat + " =>\n" + after + "\n  | " + succPat + " =>\n" + bodyText + "\n  end"
